@@ -93,6 +93,27 @@ def apply_rewrites():
     byfile = {}
     for pid, cfg in sorted(PROPS.items()):
         for rw in cfg.get("rewrites", []):
+            if rw.get("mount"):
+                # a rewritten copy of a repository file mounted at ANOTHER place (a package of the harness
+                # module): code of a build variant the harness build does not select (c2/x_ews.go)
+                src = os.path.join(REPO, rw["file"])
+                try:
+                    txt = open(src).read()
+                except OSError as e:
+                    problems.append((pid, "rewrite %s: %s" % (rw["file"], e)))
+                    continue
+                hits = 0
+                for old, new in rw["subs"]:
+                    hits += 1 if old in txt else 0
+                    txt = txt.replace(old, new)
+                if hits < rw.get("min_hits", 1):
+                    problems.append((pid, "rewrite for %s no longer applies to %s (%d of %d anchors)" % (pid, rw["file"], hits, rw.get("min_hits", 1))))
+                dst = os.path.join(BUILD, "overlay_src", "_mount", rw["mount"])
+                os.makedirs(os.path.dirname(dst), exist_ok=True)
+                if not os.path.exists(dst) or open(dst).read() != txt:
+                    open(dst, "w").write(txt)
+                extra[os.path.join(VERIF, rw["mount"])] = dst
+                continue
             byfile.setdefault(rw["file"], []).append((pid, rw))
     for rel, rws in sorted(byfile.items()):
         src = os.path.join(REPO, rel)
